@@ -8,10 +8,13 @@ captures the template context (so the listing pages' contents can be observed).
 from __future__ import annotations
 
 import asyncio
+import datetime
 import json
+import random
 import re
 import sys
 import urllib.parse
+import zlib
 
 from vlib import loader
 
@@ -90,6 +93,8 @@ class RecSession:
         self._inner, self._log = inner, log
 
     def execute(self, sql, args=None):
+        if isinstance(args, (list, tuple)):   # the MySQL driver sends a datetime as the literal 'YYYY-MM-DD HH:MM:SS'
+            args = tuple(a.strftime("%Y-%m-%d %H:%M:%S") if isinstance(a, datetime.datetime) else a for a in args)
         ent = {"sql": sql, "args": list(args) if isinstance(args, (list, tuple)) else args, "unsupported": False}
         self._log.append(ent)
         try:
@@ -100,6 +105,9 @@ class RecSession:
 
     def __getattr__(self, name):
         return getattr(self._inner, name)
+
+
+_CURRENT = [None]     # the World whose request is being served (the patched stubs are process-wide)
 
 
 class Outcome:
@@ -168,8 +176,6 @@ class World:
         fe.auth._fetch_userdata = fetch_userdata
         fe.auth._check_system_permission = check_permission
 
-        world = self
-
         async def get_session(request):
             s = request.get("verif_session")
             if s is None:
@@ -178,7 +184,7 @@ class World:
             return s
 
         def render_template(file, request, context, status=200, **kw):
-            world.rendered.append((file, context))
+            _CURRENT[0].rendered.append((file, context))
             return web.Response(text=f"rendered {file}", status=status, content_type="text/html")
 
         sys.modules["aiohttp_session"].get_session = get_session
@@ -229,7 +235,7 @@ class World:
             self._must("DELETE", f"{A}/batches/1", None, "u2" if self.name == "owner_removed" else "u1")
             self._must("DELETE", f"{A}/batches/2", None, "u3")
         elif self.rep == "closed_project":
-            self._must("POST", f"{A}/billing_projects/proj/close", None, "dev")
+            self._must("POST", f"{A}/billing_projects/other/close", None, "dev")
         self.sqllog.clear()
         self.rendered.clear()
 
@@ -273,8 +279,9 @@ class World:
         req._match_info = mi
         return await mi.handler(req)
 
-    def call(self, method, path, data=b"", user="u1", content_type="application/json") -> Outcome:
-        headers = {"Content-Type": content_type, "Content-Length": str(len(data))}
+    def call(self, method, path, data=b"", user="u1", content_type="application/json", extra_headers=None) -> Outcome:
+        _CURRENT[0] = self
+        headers = {"Content-Type": content_type, "Content-Length": str(len(data)), **(extra_headers or {})}
         if user and user != "anon":
             headers["X-User"] = user
 
@@ -303,7 +310,12 @@ class World:
             o.outcome = "refused"
         elif 400 <= o.status < 500:
             o.outcome = "clienterror"
+        elif o.status >= 500 or (o.exc is not None and not isinstance(o.exc, UnsupportedSQL)):
+            # a genuine exception in the handler (SQL error, CallError, IndexError ...) is a 500 answer in production
+            o.outcome = "servererror"
         else:
+            # 2xx, a redirect elsewhere, or the engine could not execute a statement of the handler body (harness limit:
+            # the body was reached and production would have carried on)
             o.outcome = "passed"
         o.changed_tables = self.changed_tables()
         o.changed = bool(o.changed_tables)
@@ -343,6 +355,8 @@ class World:
             walk(json.loads(self.last_response.body))
         for _file, ctx in self.rendered:
             walk({k: v for k, v in ctx.items() if k != "userdata"})
+        with_user = {it["proj"] for it in items if it["user"]}
+        items = [it for it in items if it["user"] or it["proj"] not in with_user]   # per-project totals of the same rows
         seen, out = set(), []
         for it in items:
             key = (it["proj"], it["user"])
@@ -353,15 +367,29 @@ class World:
 
 
 # ---- the concrete request for (route, request of the specification) -----------------------------------------------------
-def concrete(method, path, cls, world, target, variant, rep="plain"):
-    """-> (url, body bytes, content type).  Every body is VALID for the handler, so that the answer is decided by the
-    access checks and not by input validation (except rep 'badbody', thorough tier)."""
+Q_V1 = ["user:u3", "billing_project:other", "!user:u1", "open", "running", "user:u1 billing_project:proj", "has:name", ""]
+Q_V2 = ["billing_project = other", "user != u1", "state = running", "batch_id >= 1", "user = u3\nbilling_project = other", "cost >= 0", ""]
+
+
+def concrete(method, path, cls, world, target, variant, rep="plain", seed=0):
+    """-> (url, body bytes, content type, extra headers).  Every body is VALID for the handler, so that the answer is decided
+    by the access checks and not by input validation (except rep 'badbody'; reps 'fuzzN' draw ids, tokens, queries and the
+    developers' template-context header at random from small pools - thorough tier)."""
     b2 = target == "b2"
+    fuzz = rep.startswith("fuzz")
+    rng = random.Random(zlib.crc32(repr((seed, rep, method, path, cls, world, target, variant)).encode()))
+    extra = {}
     sub = {"batch_id": "2" if b2 else "1", "job_id": "1", "job_group_id": "0" if b2 else "1",
            "update_id": "1" if (b2 or world == "open1") else "2", "container": "main",
            "billing_project": "other" if b2 else "proj", "user": "u3" if b2 else "u2", "filename": "index.js"}
     if rep == "altids":
         sub.update(job_id="7", job_group_id="5", container="input")
+    if fuzz:
+        sub.update(job_id=rng.choice("127"), job_group_id=rng.choice("012"), container=rng.choice(["main", "input", "output"]))
+        if cls != "batch_owner" or rng.random() < 0.3:
+            sub["update_id"] = rng.choice("123")
+        if not path.startswith("/api/") and method == "GET" and rng.random() < 0.5:
+            extra["x-hail-return-jinja-context"] = "1"
     if "billing_projects" in path:
         if path.endswith("/create"):
             sub["billing_project"] = "newbp2" if b2 else "newbp"
@@ -370,6 +398,8 @@ def concrete(method, path, cls, world, target, variant, rep="plain"):
     url = re.sub(r"\{(\w+)\}", lambda m: sub.get(m.group(1), "1"), path) or "/"
     known = "TO2" if b2 else ("T" if world == "open1" else "T2")
     token = known if variant == "known_token" else "FRESH"
+    if fuzz and variant == "fresh_token":       # tokens of other updates / of the other batch are "fresh" for this batch's open update
+        token = rng.choice(["FRESH", "TO2" if not b2 else "T2", "TO", "T" if world != "open1" or b2 else "FRESH"])
     body, form, query = None, None, {}
     if cls == "batch_owner":
         if path.endswith("/job-groups/create"):
@@ -397,6 +427,12 @@ def concrete(method, path, cls, world, target, variant, rep="plain"):
             query["q"] = ""
         elif variant == "foreign":
             query["q"] = "user:u3" if v1 else "user = u3"
+        if fuzz:
+            query["q"] = rng.choice(Q_V1 if v1 else Q_V2)
+            if rng.random() < 0.3:
+                query["last_batch_id"] = rng.choice(["1", "2", "3"])
+            if rng.random() < 0.3:
+                query["limit"] = rng.choice(["1", "2", "50"])
         if path == "/billing":
             query["start"] = "01/01/2020"
     elif method in ("POST", "PATCH", "PUT") and cls in ("authed", "batch_member") and path.startswith("/api/"):
@@ -408,8 +444,8 @@ def concrete(method, path, cls, world, target, variant, rep="plain"):
     if query:
         url += "?" + urllib.parse.urlencode(query)
     if form is not None:
-        return url, urllib.parse.urlencode(form).encode(), "application/x-www-form-urlencoded"
-    return url, (json.dumps(body).encode() if body is not None else b""), "application/json"
+        return url, urllib.parse.urlencode(form).encode(), "application/x-www-form-urlencoded", extra
+    return url, (json.dumps(body).encode() if body is not None else b""), "application/json", extra
 
 
 def caller_kind(cls, caller, allowed_hint=None):
